@@ -765,7 +765,7 @@ func init() {
 			if tier == "thorough" {
 				return 12000
 			}
-			return 480
+			return 1440
 		},
 		Run: func(c *vCase) { vRunTrigCase(c, "C01") },
 		Meta: vMeta{
